@@ -1,4 +1,5 @@
 import TextxVerif.Proofs.Case
+import TextxVerif.Proofs.CaseKw
 /-!
 # C20 — `ignore_case` makes grammar literals case-insensitive
 
@@ -140,6 +141,120 @@ theorem C20_partial_tree {rx : Rx} {L : Lang} (hn : NoCaseSensitiveTerminal lowe
   intro x _
   exact (C20_values_keep_case L.toks h x.1 x.2.1 x.2.2).2.2.1
 
+/-! ### `re.IGNORECASE` proved instead of assumed, for tokens run by the Lean regex engine
+
+`RxFoldInv` is an assumption about the regex engine.  For every token whose pattern is known as an AST of
+`Re.R` — the `keyword\b` patterns of `autokwd` (`Kwd.kwRe true lit`, tied to `visit_str_match` by
+`Gen.Regexes.kwProbeI`) and textX's base-type regexes (`Gen.Regexes.ID`, …) — the row can be computed by the
+Lean regex engine (`reRx`, the engine C04 / C21 tie to Python's `re`), and for that engine the
+case-insensitivity is a theorem (`Re.m_fold`): no assumption is left for these tokens. -/
+
+open Re in
+/-- **The regex engine does not see letter case** on any pattern all of whose character tests are invariant
+under case folding (`FoldInvR`: IGNORECASE literals, `\w`, `\d`, `\b`, caseless literals, case-closed sets). -/
+theorem C20_engine_foldInv (cc : CharClasses) (r : R) (hr : FoldInvR cc r) {a b : Array Char}
+    (h : FoldEq cc.fold a b) (p : Nat) : reRx cc r a p = reRx cc r b p :=
+  reRx_foldInv cc r hr h p
+
+open Re in
+/-- **Keyword matches of `autokwd`** (`KeywordMatch(rf"{lit}\b", ignore_case=True)`): the compiled pattern
+`Kwd.kwRe true lit` gives the same result at every position of two texts equal up to letter case — for *every*
+literal (keyword-like or not), provided `\w` does not distinguish case variants. -/
+theorem C20_kwRe_foldInv (cc : CharClasses) (hw : FoldWordAll cc) (l : List Char) {a b : Array Char}
+    (h : FoldEq cc.fold a b) (p : Nat) : reRx cc (Kwd.kwRe true l) a p = reRx cc (Kwd.kwRe true l) b p :=
+  reRx_foldInv cc _ (foldInvR_kwRe cc hw l) h p
+
+open Re in
+/-- … in the shape of the survey's suggestion (`pyMatch` at the position `p` of the two texts) -/
+theorem C20_kwRe_foldInv_pyMatch (cc : CharClasses) (hw : FoldWordAll cc) (l : List Char) {a b : Array Char}
+    (h : FoldEq cc.fold a b) (p : Nat) :
+    pyMatch cc (Kwd.kwRe true l) (stAt a p).1 (stAt a p).2 = pyMatch cc (Kwd.kwRe true l) (stAt b p).1 (stAt b p).2 :=
+  C20_kwRe_foldInv cc hw l h p
+
+open Re in
+/-- no case-sensitive terminal, with the regex tokens split into *engine-run* ones (`pat i = some r`: the row
+is what the Lean regex engine computes for the pattern `r`) and the rest (`pat i = none`: user regexes, for
+which `RxFoldInv` stays an assumption).  Keyword matches must be engine-run with their own pattern. -/
+structure EngineTerminals (cc : CharClasses) (rx : Rx) (pat : Nat → Option R) (L : Lang) : Prop where
+  strs : AllIc L.toks
+  kws : ∀ (i : Nat) l, L.toks[i]? = some (Tok.kw l) → pat i = some (Kwd.kwRe true l)
+  engine : ∀ i r, pat i = some r → ∀ inp p, rx i inp p = reRx cc r inp p
+  closed : ∀ (i : Nat) r, L.toks[i]? = some Tok.re → pat i = some r → FoldInvR cc r
+  assumed : ∀ (i : Nat), L.toks[i]? = some Tok.re → pat i = none → RxFoldInv cc.fold rx i
+
+open Re in
+/-- the hypothesis of `C20_partial` follows: nothing is assumed about keyword matches and about engine-run
+regexes with fold-invariant character tests -/
+theorem C20_engine_terminals {cc : CharClasses} (hw : FoldWordAll cc) {rx : Rx} {pat : Nat → Option R} {L : Lang}
+    (h : EngineTerminals cc rx pat L) : NoCaseSensitiveTerminal cc.fold rx L where
+  strs := h.strs
+  regexes := by
+    intro i t ht hrx a b hab p
+    cases t with
+    | str _ _ => cases hrx
+    | other => cases hrx
+    | kw l =>
+      have hp := h.kws i l ht
+      rw [h.engine i _ hp, h.engine i _ hp]
+      exact C20_kwRe_foldInv cc hw l hab p
+    | re =>
+      cases hp : pat i with
+      | none => exact h.assumed i ht hp a b hab p
+      | some r =>
+        rw [h.engine i r hp, h.engine i r hp]
+        exact reRx_foldInv cc r (h.closed i r ht hp) hab p
+
+open Re in
+/-- **Acceptance and parse tree, keyword matches and engine-run regexes discharged.**  The corollary of
+`C20_partial` in which `RxFoldInv` is assumed for user regexes only. -/
+theorem C20_partial_engine {cc : CharClasses} (hw : FoldWordAll cc) {rx : Rx} {pat : Nat → Option R} {L : Lang}
+    (h : EngineTerminals cc rx pat L) (hws : WsNeutral cc.fold L) {a b : Array Char} (hab : FoldEq cc.fold a b)
+    (fuel : Nat) : L.run cc.fold rx b fuel = L.run cc.fold rx a fuel :=
+  C20_partial (C20_engine_terminals hw h) hws hab fuel
+
+open Re in
+/-- **Base types.**  For the ASCII tables every base-type regex of textX except BOOL (the generated `ID`, `INT`,
+`FLOAT`, `STRICTFLOAT`, `STRING`) satisfies `RxFoldInv` when run by the engine — proved, not assumed; BOOL's
+cased plain literals are exactly what fails (`Re.not_foldInvR_chr_T`, known finding `C20-bool-case-sensitive`). -/
+theorem C20_basetypes_ascii (r : R)
+    (hr : r ∈ [Gen.Regexes.ID, Gen.Regexes.INT, Gen.Regexes.FLOAT, Gen.Regexes.STRICTFLOAT, Gen.Regexes.STRING])
+    {a b : Array Char} (h : FoldEq asciiCC.fold a b) (p : Nat) : reRx asciiCC r a p = reRx asciiCC r b p := by
+  apply reRx_foldInv asciiCC r _ h p
+  simp only [List.mem_cons, List.not_mem_nil, or_false] at hr
+  rcases hr with rfl | rfl | rfl | rfl | rfl
+  · exact foldInvR_ID_ascii
+  · exact foldInvR_INT_ascii
+  · exact foldInvR_FLOAT_ascii
+  · exact foldInvR_STRICTFLOAT_ascii
+  · exact foldInvR_STRING_ascii
+
+/-! ### flags and parse composed: `AllIc` follows from `ignore_case=True` -/
+
+/-- the token of the parser model a `Match` object stands for -/
+def MatchObj.tok : MatchObj → Tok
+  | .strMatch s ic => .str s ic
+  | .regexMatch .. => .re
+  | .keywordMatch s .. => .kw s
+
+/-- If every string token of the parser model is the token of a `Match` object the visitor built from a
+grammar literal of a meta-model with `ignore_case=True` (after any history of earlier meta-models, by
+`C20_compile_history`), then `AllIc` — the first half of `NoCaseSensitiveTerminal` — holds; and the compiled
+regex object of every keyword match carries IGNORECASE. -/
+theorem C20_compiled_allIc (isWord isDigit : Char → Bool) (cfg : Cfg) (h : cfg.ignoreCase = true) (toks : Array Tok)
+    (hsrc : ∀ (i : Nat) lit ic, toks[i]? = some (Tok.str lit ic) →
+      ∃ l, (compileLit isWord isDigit cfg l).tok = Tok.str lit ic) : AllIc toks := by
+  intro i lit ic ht
+  obtain ⟨l, hl⟩ := hsrc i lit ic ht
+  have := C20_compile_ignore_case isWord isDigit cfg h l
+  cases l with
+  | str s =>
+    simp only [compileLit] at hl this
+    split at hl
+    · cases hl
+    · simp only [MatchObj.tok, Tok.str.injEq] at hl
+      rw [← hl.2]; exact h
+  | re src => cases hl
+
 /-! ### the unrestricted statement is false
 
 `Model: (b=BOOL | 'true')` reduced to its parser model: an ordered choice of a case-sensitive regex
@@ -237,5 +352,101 @@ example : (buildMM Char.isAlphanum Char.isDigit
 /-- a keyword terminal yields the grammar's spelling, whatever the case of the input -/
 example : values #[.other, .kw "If".toList, .re] "iF  Foo".toList.toArray (.list [.term 1 0 2, .term 2 4 3]) =
     ["If".toList, "Foo".toList] := by decide +kernel
+
+/-! ### non-vacuity of the engine-run variant: `'If' name=ID` under `autokwd`, nothing assumed -/
+
+open Re in
+/-- the parser model of `Model: 'If' name=ID;` with `autokwd` and `ignore_case`: a `KeywordMatch` and textX's `ID` -/
+def kwLang : Lang :=
+  { nodes := #[{ kind := .seq, kids := [1, 2], root := true }, { kind := .re, tok := 1 }, { kind := .re, tok := 2 }],
+    comments := none, memo := false, toks := #[.other, .kw "If".toList, .re],
+    top := 0, skipws := true, ws := [' ', '\n'] }
+
+open Re in
+def kwPat : Nat → Option R
+  | 1 => some (Kwd.kwRe true "If".toList)
+  | 2 => some Gen.Regexes.ID
+  | _ => none
+
+open Re in
+/-- every regex token is run by the Lean regex engine -/
+def kwEngine : Rx := fun i inp p =>
+  match kwPat i with
+  | some r => reRx asciiCC r inp p
+  | none => none
+
+open Re in
+theorem kwLang_hyp : EngineTerminals asciiCC kwEngine kwPat kwLang ∧ WsNeutral asciiCC.fold kwLang := by
+  have ht : ∀ i : Nat, kwLang.toks[i]? =
+      match i with | 0 => some .other | 1 => some (.kw "If".toList) | 2 => some .re | _ => none := by
+    intro i
+    match i with
+    | 0 => rfl
+    | 1 => rfl
+    | 2 => rfl
+    | _ + 3 => rfl
+  refine ⟨⟨(allIc_iff _).mp (by decide), ?_, ?_, ?_, ?_⟩, ?_, ?_⟩
+  · intro i l h
+    rw [ht] at h
+    match i, h with
+    | 0, h => cases h
+    | 1, h => cases h; rfl
+    | 2, h => cases h
+    | _ + 3, h => cases h
+  · intro i r hp inp p
+    simp only [kwEngine, hp]
+  · intro i r h hp
+    rw [ht] at h
+    match i, h with
+    | 0, h => cases h
+    | 1, h => cases h
+    | 2, _ =>
+      cases hp
+      exact foldInvR_ID foldWordAll_ascii foldDigitAll_ascii
+    | _ + 3, h => cases h
+  · intro i h hp
+    rw [ht] at h
+    match i, h with
+    | 0, h => cases h
+    | 1, h => cases h
+    | 2, _ => cases hp
+    | _ + 3, h => cases h
+  · intro c hc
+    simp only [kwLang, List.mem_cons, List.not_mem_nil, or_false] at hc
+    rcases hc with rfl | rfl
+    · exact caseless_ascii ' ' (by decide) (by decide)
+    · exact caseless_ascii '\n' (by decide) (by decide)
+  · intro id nd hnd w hw
+    have : ∀ i : Nat, ∀ nd, kwLang.nodes[i]? = some nd → nd.ws = none := by
+      intro i nd h
+      match i, h with
+      | 0, h => cases h; rfl
+      | 1, h => cases h; rfl
+      | 2, h => cases h; rfl
+      | _ + 3, h => cases h
+    rw [this id nd hnd] at hw
+    cases hw
+
+/-- the conclusion, obtained through the theorem, is about a successful parse of a case variant -/
+example : kwLang.run Re.asciiCC.fold kwEngine "iF  Foo".toList.toArray 5 =
+    kwLang.run Re.asciiCC.fold kwEngine "If  fOO".toList.toArray 5 :=
+  C20_partial_engine Re.foldWordAll_ascii kwLang_hyp.1 kwLang_hyp.2 (by decide +kernel) 5
+
+example : (kwLang.run Re.asciiCC.fold kwEngine "If  fOO".toList.toArray 5).leaves = some [(1, 0, 2), (2, 4, 3)] := by
+  decide +kernel
+
+/-- the keyword match is case-insensitive and stops at word boundaries, computed by the engine -/
+example : reRx Re.asciiCC (Kwd.kwRe true "If".toList) "x iF(".toList.toArray 2 = some 2 := by decide +kernel
+example : reRx Re.asciiCC (Kwd.kwRe true "If".toList) "x iFy".toList.toArray 2 = none := by decide +kernel
+
+/-- the token table of any list of grammar literals compiled with `ignore_case=True` satisfies `AllIc` -/
+example (lits : List Lit) :
+    AllIc (lits.map fun l => (compileLit Char.isAlphanum Char.isDigit ⟨true, true⟩ l).tok).toArray :=
+  C20_compiled_allIc Char.isAlphanum Char.isDigit ⟨true, true⟩ rfl _ (by
+    intro i lit ic h
+    have := Array.mem_of_getElem? h
+    simp only [List.mem_toArray, List.mem_map] at this
+    obtain ⟨l, _, hl⟩ := this
+    exact ⟨l, hl⟩)
 
 end Peg.Case
